@@ -80,7 +80,7 @@ def c04_jobs(tier):
     extra.append(conc("c04-conc", "c03", params={"n": 1500 if tier == "quick" else 20000}))
     # leases that run out on a subscription whose topic is gone (delete / re-create walks, exact model)
     extra.append(sim("c04-detached", "c11", require_nontrivial=False))
-    return extra + [sim("c04-phases", "c04", require_counters=["expiry_measured_by_blocked_pull", "expiry_measured_by_stream", "probe_before_deadline_empty", "probe_after_slack_returned", "second_expiry_observed"])]
+    return extra + [sim("c04-phases", "c04", require_counters=["expiry_measured_by_blocked_pull", "expiry_measured_by_stream", "probe_before_deadline_empty", "probe_after_slack_returned", "second_expiry_observed", "whole_pages_redelivered_after_one_instant_expiry", "early_looks_under_long_deadlines"])]
 
 
 def c05_jobs(tier):
